@@ -121,6 +121,8 @@ def render_parsed(items) -> str:
 
 
 _NAMES = {}
+# the four values that carry two names: the newer name is the one reported (theorem alias_names; Cobalt Strike 4.x numbering)
+ALIAS_REF = {16: "SETTING_BOF_ALLOCATOR", 17: "SETTING_SYSCALL_METHOD", 48: "SETTING_PROCINJ_BOF_REUSE_MEM", 36: "SETTING_WATERMARKHASH"}
 
 
 def ref_name(idx: int, dep: bool) -> str:
@@ -130,6 +132,9 @@ def ref_name(idx: int, dep: bool) -> str:
     if k not in _NAMES:
         if dep:
             _NAMES[k] = "SETTING_INJECT_OPTIONS" if idx == 36 else f"DeprecatedBeaconSetting_{idx}"
+        elif idx in ALIAS_REF:
+            _NAMES[k] = ALIAS_REF[idx]
+            return _NAMES[k]
         else:
             nm = None
             for n, m in BS.__members__.items():  # last definition wins
@@ -297,7 +302,8 @@ def gen_ua(rng):
         val = bytes(rng.randrange(1, 256) for _ in range(k)) + bytes(ln - k)
     else:
         val = C.rbytes(rng, ln)
-    more = bytes(rng.randrange(1, 256) for _ in range(rng.choice([0, 0, 1, 2, 5, 6, 7, 30, 200])))
+    # continuation lengths over every residue of the chunk sizes a buffered reader might use (…, 31, 32, 33, 63, 64, …)
+    more = bytes(rng.randrange(1, 256) for _ in range(rng.choice([0, 0, 1, 2, 5, 6, 7, 30, 200, rng.randrange(0, 70), 31, 63, 127, 255, 8191, 8192])))
     follow = rng.randrange(8)
     if follow == 0:
         rest = b""  # EOF right after the extra bytes
